@@ -22,7 +22,7 @@ def _configs():
 
 
 FORK_OPS = ('copy', 'copycopy', 'to_imm', 'to_mut', 'immfeed', 'immexhaust')
-OPS = [('feed', 30), ('badfeed', 4), ('step', 14), ('iter', 5), ('exhaust', 3), ('resume', 3), ('copy', 9), ('copycopy', 3),
+OPS = [('feed', 30), ('badfeed', 6), ('step', 14), ('iter', 5), ('exhaust', 3), ('resume', 3), ('copy', 9), ('copycopy', 3),
        ('to_imm', 4), ('to_mut', 2), ('immfeed', 5), ('immexhaust', 2), ('immeof', 2), ('eofcopy', 4), ('accepts_exact', 6), ('drop', 2)]
 
 
@@ -279,6 +279,15 @@ class C13(Check):
                     acc = []
                 if opname == 'badfeed':
                     pool = [t for t in terms if t not in acc] or terms
+                    # terminals that choices() lists but accepts() does not are exactly the LALR-merged lookaheads: a token of such a type is
+                    # rejected only AFTER the reductions it is a lookahead of (the fault that lands mid-reduction-chain) -- preferred
+                    try:
+                        late = sorted(t for t in ip.choices() if t.isupper() and t != '$END' and t not in acc and t in terms)
+                    except Exception:
+                        late = []
+                    if late and arg % 10 < 7:
+                        pool = late
+                        out.count('fault:rejected-token-after-reductions')
                     out.count('fault:rejected-token')
                 else:
                     pool = acc
@@ -316,7 +325,18 @@ class C13(Check):
                 if s.imm and opname != 'resume':
                     continue            # (resume_parse() is inherited by ImmutableInteractiveParser and is legal on it: it ends that session)
                 op = (opname, 1 + arg % 4) if opname == 'iter' else (opname,)
+                manual = None
+                if opname == 'resume' and ip.lexer_thread is not None and getattr(ip.lexer_thread, 'state', None) is not None:
+                    # "continues exactly as a parse of the remaining input would": the same state stepped BY HAND on a copy --
+                    # lex a token, feed it, ..., feed_eof -- is another code path than resume_parse()'s own loop
+                    manual = self._manual_resume(ip.as_mutable() if s.imm else ip.copy())
                 res, _ = self._apply(ip, op)
+                if manual is not None:
+                    out.count('probe:resume-vs-manual-stepping')
+                    got = ('result', res[1]) if res[0] == 'result' else res
+                    if _strip_t(got) != _strip_t(manual):
+                        fail('resume-differs(manual-stepping)', step=stepno, resume_parse=got, stepping_by_hand=manual, events=[o[0] for o, _ in s.events])
+                        break
                 s.events.append((op, res))
                 out.count('op:' + opname)
                 if res[0] == 'err':
@@ -453,6 +473,12 @@ class C13(Check):
             if v:
                 fail('feed-vs-parse-differs', **v)
 
+        if out.violation is None and plan['text'] and e.input_kind in ('str', 'bytes') and not cfg.startswith('cb/') and hasattr(self, '_on_error_vs_manual'):
+            v = self._on_error_vs_manual(p, e, plan)
+            out.count('op:on_error-vs-manual-recovery')
+            if v:
+                fail('resume-differs(on_error)', **v)
+
         fed = sum(1 for s in sessions if s.feeds_since_fork > 0)
         out.nontrivial = len(sessions) >= 2 and fed >= 2
         out.case_hash = jhash([cfg, plan['text'], plan['root'], [[a, b, c] for a, b, c in plan['ops']]])
@@ -463,6 +489,60 @@ class C13(Check):
         if any(s.parent is not None and s.parent.parent is not None for s in sessions):
             out.count('probe:fork-of-fork')
         return out
+
+    def _manual_resume(self, c):
+        from lark.exceptions import UnexpectedInput, LarkError
+        try:
+            last = c.lexer_thread.state.last_token
+            for tok in c.lexer_thread.lex(c.parser_state):
+                c.feed_token(tok)
+                last = tok
+            return ('result', canon(c.feed_eof(last)))
+        except UnexpectedInput as ex:
+            return ('err', canon_error(ex, with_accepts=False))
+        except LarkError as ex:
+            return ('err', canon_error(ex, with_accepts=False))
+        except (TypeError, KeyError, AttributeError, IndexError, AssertionError, ValueError) as ex:
+            return ('pyerr', type(ex).__name__, str(ex)[:120])
+
+    def _on_error_vs_manual(self, p, e, plan):
+        """Lark.parse(text, on_error=accept-everything) against the same recovery written by hand with the public pieces the
+        documentation names: catch the error, skip one character after UnexpectedCharacters, resume_parse() on the exception's
+        interactive parser, give up when the end of input is unexpected twice"""
+        from lark.exceptions import UnexpectedInput, UnexpectedCharacters, UnexpectedToken
+        inp = W.as_input(e, plan['text'])
+        seen = []
+
+        def handler(ex):
+            seen.append(type(ex).__name__)
+            return len(seen) < 8
+        want = outcome_of(lambda: p.parse(inp, start=plan['start'], on_error=handler), meta=True)
+        n = [0]
+
+        def by_hand():
+            try:
+                return p.parse(inp, start=plan['start'])
+            except UnexpectedInput as ex:
+                cur = ex
+            while True:
+                n[0] += 1
+                if n[0] >= 8:
+                    raise cur
+                if isinstance(cur, UnexpectedCharacters):
+                    st = cur.interactive_parser.lexer_thread.state
+                    st.line_ctr.feed(st.text.text[st.line_ctr.char_pos:st.line_ctr.char_pos + 1])
+                try:
+                    return cur.interactive_parser.resume_parse()
+                except UnexpectedToken as e2:
+                    if isinstance(cur, UnexpectedToken) and cur.token.type == e2.token.type == '$END':
+                        raise e2
+                    cur = e2
+                except UnexpectedCharacters as e2:
+                    cur = e2
+        got = outcome_of(by_hand, meta=True)
+        if _strip(got) != _strip(want):
+            return {'got_on_error': want, 'by_hand': got, 'handled': seen}
+        return None
 
     def _accepts_exact(self, p, e, cfg, s, terms):
         from lark.exceptions import UnexpectedToken
@@ -554,12 +634,23 @@ def _IMM():
     return ImmutableInteractiveParser
 
 
+def _strip_t(t):
+    """('err', {...}) outcomes without accepts / msg / token_history (they differ legitimately between two ways of getting there)"""
+    if isinstance(t, tuple) and len(t) == 2 and t[0] == 'err' and isinstance(t[1], dict):
+        d = dict(t[1])
+        for k in ('accepts', 'msg', 'token_history'):
+            d.pop(k, None)
+        return ('err', d)
+    return t
+
+
 def _strip(o):
     """error outcomes without the parts that legitimately differ between a hand-fed and a lexer-fed session"""
     if isinstance(o, dict) and 'error' in o:
         o = dict(o)
         o.pop('accepts', None)
         o.pop('msg', None)
+        o.pop('token_history', None)
     return o
 
 
